@@ -58,6 +58,9 @@ Example C17_parses :
   end = true.
 Proof. vm_compute. reflexivity. Qed.
 
+(* the chunk size of create_file in the property text (256 KiB) and the hash size are the code's constants, pinned *)
+Example C17_chunk_pinned : PIECE_LENGTH = 262144 /\ HASH_SIZE = 20. Proof. split; reflexivity. Qed.
+
 Print Assumptions C17_total.
 Print Assumptions C17_faithful.
 Print Assumptions C17_accessors_safe.
